@@ -39,6 +39,31 @@ pub fn set_perturb(seed: u64) {
     PERTURB.with(|p| p.set((seed, 0)));
 }
 
+/// A copy of `blocks` placed at a byte offset 1..=15 from an allocation boundary: `[[u8; 64]]` has alignment 1,
+/// so callers of the public Engine API may hand over blocks at any address.
+pub struct Misaligned {
+    raw: Vec<u8>,
+    off: usize,
+    n: usize,
+}
+
+impl Misaligned {
+    pub fn new(blocks: &[[u8; 64]], off: usize) -> Self {
+        let off = 1 + off % 15;
+        let mut raw = vec![0u8; blocks.len() * 64 + 16];
+        raw[off..off + blocks.len() * 64].copy_from_slice(blocks.as_flattened());
+        Self { raw, off, n: blocks.len() }
+    }
+    pub fn blocks_mut(&mut self) -> &mut [[u8; 64]] {
+        let (chunks, _) = self.raw[self.off..self.off + self.n * 64].as_chunks_mut::<64>();
+        chunks
+    }
+    pub fn blocks(&self) -> &[[u8; 64]] {
+        let (chunks, _) = self.raw[self.off..self.off + self.n * 64].as_chunks::<64>();
+        chunks
+    }
+}
+
 fn perturb_draw() -> Option<simcore::prng::Prng> {
     PERTURB.with(|p| {
         let (seed, n) = p.get();
@@ -224,7 +249,22 @@ impl Lockstep {
             }
         }
         let mut results: Vec<Vec<[u8; 64]>> = Vec::with_capacity(5);
+        // every other shadow call hands the blocks over at an address that is not 16-byte aligned
+        let misalign = (skew_delta + pos + truncated_size) % 2 == 1;
         for engine in self.engines() {
+            if misalign {
+                let mut m = Misaligned::new(&input, pos + size + skew_delta);
+                {
+                    let mut view = ShardsRefMut::new(count, len64, m.blocks_mut());
+                    if prim == 0 {
+                        engine.fft(&mut view, pos, size, truncated_size, skew_delta);
+                    } else {
+                        engine.ifft(&mut view, pos, size, truncated_size, skew_delta);
+                    }
+                }
+                results.push(m.blocks().to_vec());
+                continue;
+            }
             let mut copy = input.clone();
             {
                 let mut view = ShardsRefMut::new(count, len64, &mut copy);
@@ -310,18 +350,25 @@ impl Engine for Lockstep {
                 2 => 65534,
                 _ => p.below(65536) as GfElement,
             };
-            let mut res2: Vec<Vec<[u8; 64]>> = Vec::with_capacity(5);
+            let mut res2: Vec<Vec<[u8; 64]>> = Vec::with_capacity(10);
             for engine in self.engines() {
                 let mut copy = snapshot.clone();
                 engine.mul(&mut copy, log2);
                 res2.push(copy);
+            }
+            // the same product on blocks at an odd address must be the same bytes
+            let off = p.below(15) as usize;
+            for engine in self.engines() {
+                let mut m = Misaligned::new(&snapshot, off);
+                engine.mul(m.blocks_mut(), log2);
+                res2.push(m.blocks().to_vec());
             }
             LOG.with(|l| {
                 let mut l = l.borrow_mut();
                 l.perturbed_calls += 1;
                 for (n, res) in res2.iter().enumerate().skip(1) {
                     if res != &res2[0] {
-                        l.violations.push(format!("mul(log_m={log2}, blocks={}) [perturbed shadow call]: {} differs from {}", x.len(), NAMES[n], NAMES[0]));
+                        l.violations.push(format!("mul(log_m={log2}, blocks={}) [perturbed shadow call{}]: {} differs from {}", x.len(), if n >= 5 { ", blocks at an address that is not 16-byte aligned" } else { "" }, NAMES[n % 5], NAMES[0]));
                     }
                 }
             });
